@@ -240,6 +240,19 @@ var props = map[string]Prop{
 			prog("histories", "./harness/c13", "TestC13Histories", 1, 30, 8, 16),
 		},
 	},
+	"C19": {
+		ID: "C19", Level: "exploration",
+		Rule: "rapid generates programs of 12-30 units over three Go packages using github.com/goplus/lib/py: values (64-bit signed/unsigned integers incl. the range limits, floats by bit pattern incl. NaN/inf/-0/denormals, valid UTF-8 strings incl. multi-byte and NUL, byte strings, nested lists/tuples) converted to Python objects and read back; bound builtins/math functions called with order-sensitive positional arguments; callables fetched by name invoked through CallNoArgs/CallOneArg/CallObject/CallFunctionObjArgs/Call with 0-6 arguments; module attributes looked up by name; package-level initialisers of two other Go packages using Python modules before main. A Python script generated alongside performs the same computation under python3 (CPython 3.11, the library the program links) and every line is compared per unit. Non-trivial = every unit except plain attribute lookups.",
+		Assumptions: []string{
+			"CPython 3.11 running the generated oracle script is the reference",
+			"only valid UTF-8 is passed to py.Str; domains avoid Python exceptions except where both sides print NULL",
+			"'each module imported once' is observed only as: use from package-level initialisers of several Go packages works before main; import counts are not instrumented",
+			"O0 only",
+		},
+		Jobs: []Job{
+			prog("programs", "./harness/c19", "TestC19Programs", 3, 50, 8, 16),
+		},
+	},
 	"C15": {
 		ID: "C15", Level: "exploration",
 		Rule: "rapid generates a pool of 8-22 named types in two packages (named basics, structs with tags / unexported / embedded value and pointer fields, generic structs and instances, named interfaces, named composites, a recursive struct; 0-3 methods each on value and pointer receivers incl. String/Error/GoString) plus 4-10 unnamed composites, 1-3 values per type; the generated program walks every type with reflect, exercises the values and formats them with ~40 fmt verb/flag combinations, in one of three modes (full walker / constant MethodByName only / formatting only); gc's output of the same program is the oracle, compared line by line per type. A case is one (type, mode); non-trivial = the type has at least two of {embedded field, embedded pointer, embedded generic instance, pointer-receiver method, value-receiver method, fmt interface method, tag, unexported field, generic instance, recursion, named composite}.",
